@@ -277,10 +277,49 @@ def battery():
             htmltools.html_dependency_render_mode = "invisible"
         return dg(s, s2, str(x))
 
+    def same_name_other_source():
+        # dependencies that share name AND version but come from different kinds of source (a package directory, a URL,
+        # a plain directory): what one of them renders to never depends on which of the others was rendered earlier,
+        # for every lib_prefix / include_version combination and on every rendering path
+        def mk(kind):
+            src = {"pkg": {"package": "htmltools", "subdir": "lib/shared"}, "href": {"href": "https://cdn.example/shared"},
+                   "dir": {"subdir": "lib/shared"}}[kind]
+            return HTMLDependency("shared", "1.0", source=src, script={"src": "s.js"}, stylesheet={"href": "s.css"})
+
+        def obs(kind, lp, iv):
+            d = mk(kind)
+            r = HTMLDocument(tags.div("x", d)).render(lib_prefix=lp, include_version=iv)
+            return (r["html"], repr(d.as_dict(lib_prefix=lp, include_version=iv)),
+                    d.as_html_tags(lib_prefix=lp, include_version=iv).get_html_string(),
+                    repr(d.source_path_map(lib_prefix=lp, include_version=iv)["href"]))
+
+        out = []
+        for lp, iv in (("lib", True), (None, False)):
+            if True:
+                for order in (("pkg", "href", "dir"), ("href", "dir", "pkg")):
+                    seen = {}
+                    for kind in order + order:
+                        o = obs(kind, lp, iv)
+                        if kind in seen:
+                            expect_same(f"same name and version, {kind} source, rendered again after the other sources", o, seen[kind])
+                        seen[kind] = o
+                    # absolute anchor (the first observation may already follow some history in this process)
+                    h = seen["href"]
+                    if "https://cdn.example/shared/s.js" not in h[0] or "https://cdn.example/shared/s.css" not in h[2]:
+                        PROBLEMS.append("same name and version, URL source: result after earlier use differs from a fresh construction "
+                                        "(script/stylesheet URL is not href/path)")
+                    loc = ("" if lp is None else lp + "/") + ("shared-1.0" if iv else "shared")
+                    for kind in ("pkg", "dir"):
+                        if f'"{loc}/s.js"' not in seen[kind][0] or "cdn.example" in seen[kind][0]:
+                            PROBLEMS.append(f"same name and version, {kind} source: result after earlier use differs from a fresh "
+                                            "construction (script URL is not prefix/name[-version]/path)")
+                    out.append((lp, iv, order, seen))
+        return dg(repr(out))
+
     # the first five/seven items are the ones permuted: pairs whose relative order matters
     return [("version_spelling_a", version_spelling_a), ("adapter_with_tagify", adapter_with_tagify),
             ("version_spelling_b", version_spelling_b), ("adapter_without_tagify", adapter_without_tagify),
-            ("escapes", escapes), ("json_mode", json_mode), ("text_document_b", text_document_b), ("shared_page", shared_page), ("many_deps", many_deps), ("dup_head_content", dup_head_content), ("text_document", text_document),
+            ("escapes", escapes), ("json_mode", json_mode), ("text_document_b", text_document_b), ("shared_page", shared_page), ("same_name_other_source", same_name_other_source), ("many_deps", many_deps), ("dup_head_content", dup_head_content), ("text_document", text_document),
             ("jsx_component", jsx_component), ("attr_merges", attr_merges), ("resolution", resolution),
             ("jsx_component_b", jsx_component_b), ("failed_operations", failed_operations),
             ("callers_change_what_they_got", callers_change_what_they_got)]
